@@ -295,7 +295,10 @@ def run_newruntime(P, rep, rule="R-NEWRUNTIME"):
                     makes = True
         if makes:
             n += 1
-            if f2.key not in allowed:
+            # a function that itself assembles the RuntimeCore / SandboxedStackFrame the registers go into is the same construction site
+            owner = any(st[0] == "a" and st[2]["k"] == "agg" and st[2].get("id") in (RB + "RuntimeCore", ST + "SandboxedStackFrame")
+                        for b in f2.blocks for st in b["s"])
+            if f2.key not in allowed and not owner:
                 rep.viol(rule, "Registers constructed in " + f2.key, P.where(f2),
                          "per-render plugin state is created outside RuntimeCore::default / SandboxedStackFrame::new")
             else:
